@@ -132,7 +132,10 @@ fn cigar_to_features(
         match op.kind() {
             Kind::Match | Kind::SequenceMatch | Kind::SequenceMismatch => {
                 if op.len() == 1 {
-                    let raw_reference_base = reference_sequence[reference_position];
+                    let raw_reference_base = reference_sequence
+                        .get(reference_position)
+                        .copied()
+                        .ok_or_else(reference_sequence_out_of_bounds_error)?;
                     let raw_read_base = sequence[read_position];
 
                     let quality_score = quality_scores[read_position];
@@ -182,7 +185,9 @@ fn cigar_to_features(
                         .checked_add(op.len())
                         .expect("attempt to add with overflow");
 
-                    let reference_bases = &reference_sequence[reference_position..reference_end];
+                    let reference_bases = reference_sequence
+                        .get(reference_position..reference_end)
+                        .ok_or_else(reference_sequence_out_of_bounds_error)?;
                     let read_bases = &sequence[read_position..read_end];
 
                     for (i, (&raw_reference_base, &raw_read_base)) in
@@ -316,6 +321,13 @@ fn cigar_to_features(
     }
 
     Ok(features)
+}
+
+fn reference_sequence_out_of_bounds_error() -> io::Error {
+    io::Error::new(
+        io::ErrorKind::InvalidInput,
+        "alignment is out of bounds of the reference sequence",
+    )
 }
 
 #[allow(clippy::type_complexity)]
